@@ -352,6 +352,8 @@ def tasks(tier, seed):
             ts.append((task_reject, (sh, False)))
     ts.append((task_reject, ((2, (1,)), True)))
     ts.append((task_argkinds, ()))
+    from . import kinds
+    ts += [(kinds.task_kinds, ("C04", op)) for op in kinds.OPS["C04"][1]]
     return ts
 
 
@@ -376,6 +378,9 @@ def oracle_curve_equal(U1, P1, W1, U2, P2, W2, p):
 
 def replay(o):
     w = o["witness"]
+    if w.get("kind") == "kinds":
+        from . import kinds
+        return kinds.replay(o)
     if w.get("kind") == "c04.argkind":
         tag = "[%s,nodes=%s,%s]" % (w["argkind"], "+".join(w["nodes"]), "rat" if w["rational"] else "pol")
         r = [x for x in task_argkinds() if "id" in x and x["id"].endswith(tag)][0]
